@@ -20,13 +20,17 @@ CLAIMS = {
     "C14": ("Handlers of every supported return shape with symbolic strings/bytes/status/nil-ness run through a real Flame; status line, body bytes and chain continuation are asserted against the statement's table; reflective and teapot fast path; registered ReturnHandler replaces the table.", "§3/C14"),
     "C15": ("Real Recovery() closure in chains with symbolic panic kind (string, error, two run-time errors, struct, failed dependency resolution), phase, earlier status, environment, nesting style: nothing escapes ServeHTTP, status/body rules, middleware in front completes, a later request is served normally.", "§3/C15"),
     "C05": ("REDUCED CLAIM - interleavings are not explored. A sequential sufficient condition is decided: during a symbolic request through a real application with routes of every kind, every store the interpreter executes is checked against the memory reachable from package globals when the request starts; a store into that shared memory outside sync.Once / mutex / atomic is a violation. The same request served twice must give the same response.", "§3/C05, §4"),
-    "C06": ("REDUCED CLAIM - participle is not executed symbolically. (a) Rendering clause on the real code with symbolic token contents; (b) the solver (regex theory) decides equality of the lexer's character classes and of the token-level grammar (struct tags) with the README EBNF, all re-extracted from source each run; (c) every witness and >=500 solver-drawn strings are confirmed on the real parser (no panic, accepted iff documented, canonical form a fixpoint, AST mirrors the derivation).", "§3/C06, §4"),
-    "C08": ("Real AddRoute (and everything below it, incl. regexp.Compile) on registration histories of up to 3 routes whose every identifier is a symbolic byte, against a mustReject predicate written from the statement: error iff ill-formed, never a crash; at router level a symbolic method string and per-method duplicates.", "§3/C08"),
-    "C11": ("A registration program template (3 nesting levels; Group, Get/Post/Delete, Routes in both spellings, Any, AutoHead toggles, Combo inside and outside groups) with symbolic statement guards, list lengths and slice capacities runs on the real router; afterwards every (method, path) is requested and the handler list handed to the context is compared with the flat expansion.", "§3/C11"),
+    "C06": ("REDUCED CLAIM - participle is not executed symbolically. (a) Rendering clause on the real code with symbolic token contents; on nine shapes and on every segment structure with up to 2/3 elements; (b) the solver (regex theory) decides equality of the lexer's character classes and of the token-level grammar (struct tags) with the README EBNF, all re-extracted from source each run; (b') for every byte string up to 16 (quick) / 22 (thorough) bytes the lexer's state machine as written (states, rule order, push/pop) composed with the struct-tag grammar accepts iff the README grammar does - two QF_BV queries per length over symbolic bytes; (c) every witness and >=500 solver-drawn strings are confirmed on the real parser (no panic, accepted iff documented, canonical form a fixpoint, AST mirrors the derivation).", "§3/C06, §4"),
+    "C08": ("Real AddRoute (and everything below it, incl. regexp.Compile) on registration histories of up to 3 routes (1-3 segments, some 4-6) whose every identifier is a symbolic byte, against a mustReject predicate written from the statement: error iff ill-formed, never a crash; at router level a symbolic method string and per-method duplicates.", "§3/C08"),
+    "C11": ("A registration program template (3 nesting levels; Group, Get/Post/Delete, Routes in both spellings, Any, AutoHead toggles, Combo inside and outside groups and across groups, empty route paths, an optional route shadowing Any) with symbolic statement guards, list lengths and slice capacities runs on the real router; afterwards every (method, path) is requested and the handler list handed to the context is compared with the flat expansion.", "§3/C11"),
     "C16": ("Real Static() closure with symbolic URL path, method and file-system answers (error/file/directory, failing Stat): only GET/HEAD, only under the prefix at a segment boundary, only the two allowed names are opened, silence when it cannot serve, 302 for slash-less directories, 304 on ETag match; plus the http.Dir containment lemma executed from stdlib SSA with os.Open intercepted.", "§3/C16"),
     "C17": ("Real Renderer/render.* with symbolic status, charset, indentation and body bytes: status, Content-Type before the status line, verbatim bytes; encoders stubbed by contract (reduced claim).", "§3/C17"),
     "C18": ("Real accessors with symbolic query values/defaults/presence; typed accessors over a menu of hostile numerals; cookie round trip as solver-decided lemmas over all byte values on the real net/url code, with net/http's cookie writer/reader assumed identity on QueryEscape's alphabet.", "§3/C18"),
     "C13": ("Every k-step operation sequence (k<=4 quick, <=6 thorough) on the real responseWriter with symbolic status code, method bytes and write lengths, plus a one-step inductive lemma from an arbitrary invariant-satisfying state (sequences of any length modulo the invariant).", "§3/C13"),
+}
+
+TECH_BY = {
+    "C06": TECH + "; plus SMT (z3 QF_BV, z3-new second opinion) bounded equivalence of two automata extracted from source (lexer state machine + struct-tag grammar vs README grammar) and z3-new regex-theory queries; witnesses and solver-drawn samples run on the real parser",
 }
 
 checks = []
@@ -44,7 +48,7 @@ for p in props:
         "engine": "symx",
         "level_claimed": {"category": "model_checking", "text": text + " Bounded: holds for every input within the bounds recorded in the evidence file.", "design_ref": "DESIGN.md " + ref},
         "level_note": TRUST,
-        "technique": TECH,
+        "technique": TECH_BY.get(pid, TECH),
     })
 NA_REASON = {}
 na = [{"property_id": p["id"], "reason": NA_REASON.get(p["id"], "check under construction in this session (engine exists; harness not yet registered)")}
